@@ -192,6 +192,24 @@ func c12Build(kind, forms string, dflt, dfltBrace bool) *c12Tpl {
 	return t
 }
 
+// c12WithConst puts a constant definition in front of the program and of
+// every spliced reference; the constant's name is a free identifier, so it may
+// be spelled like a case label or like the switch value (case labels and the
+// -s value are not constant use sites).
+func c12WithConst(t *c12Tpl) *c12Tpl {
+	c := *t
+	k := t.atoms.New(ClsIdent, "const", "")
+	n := t.atoms.New(ClsNum, "cv", "")
+	pre := "const " + k.Placeholder() + " = " + n.Placeholder() + "\n"
+	c.name = t.name + "+const"
+	c.src = pre + t.src
+	c.spliced = nil
+	for _, s := range t.spliced {
+		c.spliced = append(c.spliced, pre+s)
+	}
+	return &c
+}
+
 func c12Case(t *c12Tpl, lint bool) *Case {
 	prog := &Program{Atoms: t.atoms, Tops: []interface{}{&TopRaw{Text: t.src}}}
 	opt := CompileOpts{Optimize: true, SwKeys: []Tok{A(t.key)}, SwVals: []Tok{A(t.val)}, Lint: lint}
@@ -296,6 +314,14 @@ func RunC12(env *Env, rep *Report) {
 			}
 		}
 	}
+	// a constant that may be spelled like a case label or the switch value
+	for _, kind := range []string{"statements", "text", "movement", "mart"} {
+		for _, f := range []string{"c", "cb"} {
+			for _, d := range []int{0, 1} {
+				cases = append(cases, c12Case(c12WithConst(c12Build(kind, f, d > 0, false)), false))
+			}
+		}
+	}
 	for _, f := range []string{"c", "b", "cb"} {
 		for _, d := range []int{1, 2} {
 			cases = append(cases, c12Case(c12Build("statements-plain-selected", f, true, d == 2), false))
@@ -308,7 +334,7 @@ func RunC12(env *Env, rep *Report) {
 		}
 	}
 	rep.Technique = "symbolic execution of the real poryswitch parsing (go/ssa) with symbolic -s value and case labels; relational assertion between the compilation of P and of P with the selected case spliced in, the match pattern decided by the solver (z3)"
-	rep.Explanation = "Bounded symbolic verification, not a proof. Programs with a poryswitch in each of its four positions (statements - also with a nested poryswitch -, text, movement / moves() steps, mart items), up to the stated number of named cases in colon and brace form, with and without a '_' case, are compiled by symbolic execution with the -s value and every case label symbolic; in the same symbolic state the program with each case's content spliced in place of the poryswitch is compiled too. Which case matches is a solver-decided fork (first named case equal to the value, else '_', else none). Asserted: the output equals, line by line as ropes, the output of the program with exactly the selected case spliced in (so no token of another case influences it; inline text numbering included); no match and no '_' is an error; in lint mode a missing switch value is never an error."
+	rep.Explanation = "Bounded symbolic verification, not a proof. Programs with a poryswitch in each of its four positions (statements - also with a nested poryswitch -, text, movement / moves() steps, mart items), up to the stated number of named cases in colon and brace form, with and without a '_' case, are compiled by symbolic execution with the -s value and every case label symbolic; in the same symbolic state the program with each case's content spliced in place of the poryswitch is compiled too. Which case matches is a solver-decided fork (first named case equal to the value, else '_', else none). Asserted: the output equals, line by line as ropes, the output of the program with exactly the selected case spliced in (so no token of another case influences it; inline text numbering included); no match and no '_' is an error; in lint mode a missing switch value is never an error. A subset is repeated with a constant definition in front whose name is free to coincide with a case label or with the -s value (neither is a constant use site)."
 	rep.Bounds = map[string]interface{}{"positions": []string{"statements", "statements with nested poryswitch", "text", "movement", "moves()", "mart"}, "case_forms": forms, "default_case": "absent / colon form / brace form", "cases": len(cases)}
 	rep.Outside = []string{"more named cases", "deeper nesting", "parsing of the -s key=value flag (main.mapOption.Set)", "programs whose unselected cases do not parse (rejected by design)"}
 	rep.Assumptions = []string{"case labels are pairwise distinct identifiers other than '_'", "names are generic identifiers (Int-coded)"}
